@@ -437,9 +437,9 @@ def check(ctx):
         depth = 3 if quick else 4
         ex = exhaustive(depth, rng, None if quick else 150000)
         mult = 1 if proof_ok else 5
-        rnd = [gen_history(rng, rng.choice([6, 12, 24, 40])) for _ in range((2500 if quick else 30000) * mult)]
-        mtr = [gen_mt_random(rng, hooks) for _ in range((2500 if quick else 40000) * mult)]
-        mte = gen_mt_exhaustive(rng, hooks, 6 if quick else 40, 10)
+        rnd = [gen_history(rng, rng.choice([6, 12, 24, 40])) for _ in range((6000 if quick else 40000) * mult)]
+        mtr = [gen_mt_random(rng, hooks) for _ in range((6000 if quick else 60000) * mult)]
+        mte = gen_mt_exhaustive(rng, hooks, 12 if quick else 60, 10)
         st = corpus + ex + rnd
         mt = mtr + mte
         ctx.cov["rule"] = (
@@ -451,6 +451,8 @@ def check(ctx):
             f"schedules of their first 10 scheduling points (counter-read hooks {'present' if hooks else 'ABSENT: plain reads are not scheduling points'}); "
             "distinct_nontrivial = distinct (op-kind set, final observation) among histories in which a payload was shared")
         ctx.cov["exhaustive"] = False
+        ctx.cov["open_statements"] = ["mt_safe_nested (handles nested inside shared payloads read concurrently: Props.lean OPEN block); "
+                                      "payload content is flat in the model"]
         ctx.cov["exhaustive_scope"] = (f"single-threaded length<={depth} per kind: {len(ex)} histories; "
                                        f"schedules: all of {{t1,t2}}^10 for {len(mte) // 1024} scenarios")
         ops = {}
